@@ -403,4 +403,53 @@ def protoToBlock (p : PBlock) (ext : Option Nat) : R TBlock :=
                     | some e => .error e
                     | none => .ok ⟨p.symbols, p.context, version, core, keys⟩
 
+/-! ## snapshot blocks (`AuthorizerSnapshot`: the authorizer block and the token's blocks) -/
+
+structure PSnapBlock where
+  context : Option Str
+  version : Option Nat
+  facts : List PPred
+  rules : List PRule
+  checks : List PCheck
+  scope : List PScope
+  /-- `none`: no key; `some none`: a key `PublicKey::from_proto` refuses -/
+  externalKey : Option (Option Nat)
+  deriving Repr, Inhabited
+
+/-- `token_block_to_proto_snapshot_block` (symbols and public keys are not part of the message) -/
+def snapshotBlockToProto (b : TBlock) : PSnapBlock :=
+  { context := b.context, version := some b.version,
+    facts := b.core.facts.map predToProto, rules := b.core.rules.map ruleToProto,
+    checks := b.core.checks.map checkToProto, scope := b.core.scopes.map scopeToProto,
+    externalKey := b.core.extKey.map some }
+
+/-- `proto_snapshot_block_to_token_block`: its own gate on check kinds (none at all at the lowest
+    version), no third-party gate, no tables -/
+def protoToSnapshotBlock (p : PSnapBlock) : R TBlock :=
+  let version := p.version.getD 0
+  if !(Gen.minSchemaVersion ≤ version ∧ version ≤ Gen.maxSchemaVersion) then .error .version
+  else
+    match mapR protoToPred p.facts with
+    | .error e => .error e
+    | .ok facts =>
+      match mapR (protoToRule version) p.rules with
+      | .error e => .error e
+      | .ok rules =>
+        if version = Gen.minSchemaVersion ∧ p.checks.any (fun c => c.kind.isSome) then .error .checkKindVersion
+        else
+          match mapR (protoToCheck version) p.checks with
+          | .error e => .error e
+          | .ok checks =>
+            match mapR protoToScope p.scope with
+            | .error e => .error e
+            | .ok scopes =>
+              match compatErr (blockFlags codeTerm33 codeOp33 codeOp31 Gen.checkAllDetected Gen.rejectDetected
+                  ⟨facts, rules, checks, scopes, none⟩) version with
+              | some e => .error e
+              | none =>
+                match p.externalKey with
+                | some none => .error .badKey
+                | some (some k) => .ok ⟨[], p.context, version, ⟨facts, rules, checks, scopes, some k⟩, []⟩
+                | none => .ok ⟨[], p.context, version, ⟨facts, rules, checks, scopes, none⟩, []⟩
+
 end Biscuit.Convert
